@@ -21,7 +21,7 @@ import (
 func init() {
 	Register(&Rule{ID: "R-ERR-26", Props: []string{"C19"}, Floor: 150,
 		Doc: "every non-comma-ok type assertion, in hand-written csvq code, from an interface to a concrete syntax-tree type of lib/parser is applied to an operand whose dynamic type has been tested: the assertion is dominated by the successful edge of a comma-ok test / the single-type arm of a type switch for the same asserted type on the same operand (the same SSA value, or a read of the same field chain of the same base value with no store to it in between), or — inside an arm of a type switch that lists several types — the assertion re-tests the operand; or the operand is a value the function itself built as that type. What a grammar production happens to store in a field (a sub-query is both a value and a row value) is not accepted as evidence: the parser's union slots are untyped, so the rule asks for the test. Otherwise a valid program can reach an 'interface conversion' panic (internal Fatal Error)",
-		Controls: []string{"CtlPAssertUntested", "CtlPAssertOtherField", "CtlPAssertMultiArm"},
+		Controls: []string{"CtlPAssertUntested", "CtlPAssertOtherField", "CtlPAssertMultiArm", "CtlPAssertPredicateSaysNothing"},
 		Run:      ruleErr26})
 }
 
@@ -32,7 +32,6 @@ const err26ParserPkg = core.ModPath + "/lib/parser"
 var err26Exceptions = map[string]string{
 	"lib/query.loadView: tableExpr.(lib/parser.Table)": "a table position (FromClause.Tables, Join.Table / JoinTable, the operands of a parenthesized table) holds a Table or a Parentheses around one: the grammar symbols `table`, `tables`, `joinable_tables` produce nothing else (side condition, checked on every run) and loadView unwraps the Parentheses before this assertion; the engine merges the Expr of table parentheses with the Expr of value parentheses (one field), which is why it cannot show it",
 	"lib/query.loadView: t.Object.(lib/parser.Subquery)": "reached only for a Table whose Lateral token is set; the only productions that set Lateral (`LATERAL laterable_query_table`) take the Table from `laterable_query_table`, whose Object is the sub-query — a correlation between two fields of one node that the per-field sets do not carry",
-	"lib/query.loadView: formatSpecifiedFunction.Path.(lib/parser.Identifier)": "guarded by isTableObjectAsURL(Path), a predicate that returns true only after its own successful test Path.(parser.Identifier) — a test made inside a helper",
 	"lib/query.loadObject: NormalizeTableObject()#0.(lib/parser.Identifier)": "the table objects that reach loadObject are Identifier, Url, TableFunction, Stdin (grammar symbol table_identifier) or the DataObject / Url built by loadView for an inline format; Stdin returns earlier, NormalizeTableObject turns Url and TableFunction into Identifier / DataObject / HttpObject, and the two tests above take DataObject and HttpObject — the value-typed Path of an inline format-specified function is replaced by a DataObject behind the predicate isTableObjectAsDataObject, a test made inside a helper",
 }
 
